@@ -543,7 +543,7 @@ func (interp *Interpreter) EvalPathWithContext(ctx context.Context, path string)
 			if r := recover(); r != nil {
 				var pc [64]uintptr
 				n := runtime.Callers(1, pc[:])
-				err = Panic{Value: r, Callers: pc[:n], Stack: debug.Stack()}
+				err = Panic{Value: panicValue(r), Callers: pc[:n], Stack: debug.Stack()}
 			}
 			close(done)
 		}()
@@ -605,7 +605,7 @@ func (interp *Interpreter) EvalWithContext(ctx context.Context, src string) (ref
 			if r := recover(); r != nil {
 				var pc [64]uintptr
 				n := runtime.Callers(1, pc[:])
-				err = Panic{Value: r, Callers: pc[:n], Stack: debug.Stack()}
+				err = Panic{Value: panicValue(r), Callers: pc[:n], Stack: debug.Stack()}
 			}
 			close(done)
 		}()
